@@ -41,6 +41,7 @@ class C07(Check):
             [b"../evil"], [b"a/../../evil"], [b"/abs/path"], [b"ok", b"../../canary/f"], [b"a/../b"], [b"a/./b/"], [b"./x"],
             [b"d/", b"d"], [b"f", b"f/g"], [b"f", b"f"], [b"f/", b"f/"], [b"a/b/c/d/e/f/g/h/i/j/k/l/m/n/o/p/q/r/s/t/u/v/w/x/y/z/file"],
             [b"nul\0name"], [b"back\\slash"], [b"notes\\"], [b"d/notes\\", b"d/x"], [b"\\"], [b"a/.."], [b"a/."], [b"."], [b""], [b"a//b"], [b"trail/"], [b"..\\..\\x"], [b"canary/../../canary/f"],
+            [b"d/x", b"d/"], [b"a/b/c", b"a/", b"a/b/"], [b"p/q/", b"p/"], [b"k/f", b"k/g", b"k/"],
         ]
         arch = [ns for ns in fixed]
         for _ in range(400 if self.tier == "quick" else 8000):
@@ -106,6 +107,7 @@ class C07(Check):
                 return None
             norm.append((b"/".join(parts), n.endswith(b"/")))
         paths = {}
+        explicit = set()
         for pth, isdir in norm:
             comps = pth.split(b"/")
             for k in range(1, len(comps)):
@@ -113,8 +115,10 @@ class C07(Check):
                 if paths.get(d, "D") != "D":
                     return None
                 paths.setdefault(d, "D")
-            if pth in paths:
+            if pth in paths and not (isdir and paths[pth] == "D" and pth not in explicit):
                 return None
+            # (a directory entry listed after entries below it is consistent: it names a directory that already exists)
+            explicit.add(pth)
             paths[pth] = "D" if isdir else "F"
         if res != "Ok":
             return "safe, consistent archive failed to extract: %s" % res
